@@ -553,3 +553,56 @@ def analyse_ownership(funcs: list[Func], caller_names: tuple[str, ...]) -> list[
             ok = bool(verdicts) and all(v[1] for v in verdicts)
             out.append({"caller": f.full, **m, "fresh": ok, "why": "; ".join(f"{v[0]}: {v[2]}" for v in verdicts) or "callee not found in the package", "callees": [v[0] for v in verdicts]})
     return out
+
+
+# ---------------------------------------------------------------------------------------------------------------------
+# containers an object keeps in its own attributes and fills in its methods (memo tables that outlive a call)
+# ---------------------------------------------------------------------------------------------------------------------
+def analyse_instance_containers(funcs: list[Func], class_suffixes: tuple[str, ...], entry: str = "formulate") -> list[dict]:
+    """For the classes named: attributes bound in __init__ to a container created there (display, dict()/list()/set()/defaultdict()),
+    the methods that mutate them in place (self.a[k] = v, self.a.update(...), ...), and whether `entry` rebinds or clears them before use.
+    Such an attribute is state that survives entry() unless it is reset: results of a later call may depend on an earlier one."""
+    out = []
+    by_cls: dict[str, list[Func]] = {}
+    for f in funcs:
+        if f.cls and any((f.module + "." + f.cls).endswith(c) for c in class_suffixes):
+            by_cls.setdefault(f.module + "." + f.cls, []).append(f)
+    for cls, fs in by_cls.items():
+        init = next((f for f in fs if f.name == "__init__"), None)
+        if init is None:
+            continue
+        attrs = {}
+        for n in _own_nodes(init.node):
+            if isinstance(n, (ast.Assign, ast.AnnAssign)):
+                targets = n.targets if isinstance(n, ast.Assign) else [n.target]
+                v = n.value
+                for t in targets:
+                    if isinstance(t, ast.Attribute) and isinstance(t.value, ast.Name) and t.value.id == "self" and v is not None:
+                        if isinstance(v, (ast.Dict, ast.List, ast.Set, ast.DictComp, ast.ListComp, ast.SetComp)) or (isinstance(v, ast.Call) and _called_name(v) in {"dict", "list", "set", "defaultdict", "OrderedDict"}):
+                            attrs[t.attr] = n.lineno
+        for a, line in attrs.items():
+            mutated, reset = [], False
+            for f in fs:
+                if f.name == "__init__":
+                    continue
+                for n in _own_nodes(f.node):
+                    tgt = None
+                    if isinstance(n, (ast.Assign, ast.AugAssign)):
+                        for t in (n.targets if isinstance(n, ast.Assign) else [n.target]):
+                            if isinstance(t, ast.Subscript):
+                                tgt = t.value
+                            elif isinstance(t, ast.Attribute) and isinstance(t.value, ast.Name) and t.value.id == "self" and t.attr == a and f.name == entry:
+                                reset = True
+                    elif isinstance(n, ast.Delete):
+                        for t in n.targets:
+                            if isinstance(t, ast.Subscript):
+                                tgt = t.value
+                    elif isinstance(n, ast.Call) and isinstance(n.func, ast.Attribute) and n.func.attr in _MUTATORS:
+                        tgt = n.func.value
+                        if n.func.attr == "clear" and f.name == entry and isinstance(tgt, ast.Attribute) and tgt.attr == a:
+                            reset = True
+                    if isinstance(tgt, ast.Attribute) and isinstance(tgt.value, ast.Name) and tgt.value.id == "self" and tgt.attr == a and f.full not in mutated:
+                        mutated.append(f.full)
+            if mutated:
+                out.append({"class": cls, "attribute": a, "bound_in___init___line": line, "mutated_in": mutated, f"reset_in_{entry}": reset})
+    return out
